@@ -1,10 +1,11 @@
 import Adlt.Gen.Consts
-/-! Model of `buffer_sort_messages` (src/utils/mod.rs): min-heap as a list kept sorted by (calculated time, index),
+/-! Model of `buffer_sort_messages` (src/utils/mod.rs): min-heap as a list kept sorted by (calculated time, arrival number),
     lifecycle-start cache (first sight wins), per-ECU sliding window of maximum buffering delays. -/
 namespace Srt
 
 structure SMsg where
-  index : Nat
+  index : Nat             -- the message's own index: carried, not used by the sorter
+  seq : Nat := 0          -- arrival number, handed out by `buffer_sort_messages`: the tie-break of the heap
   recv : Nat
   ecu : Nat
   lc : Nat
@@ -40,7 +41,7 @@ def aSet {α} (k : Nat) (v : α) : List (Nat × α) → List (Nat × α)
   | [] => [(k, v)]
   | (k', v') :: t => if k' == k then (k, v) :: t else (k', v') :: aSet k v t
 
-def keyLt (a b : Nat × SMsg) : Bool := a.1 < b.1 || (a.1 == b.1 && a.2.index < b.2.index)
+def keyLt (a b : Nat × SMsg) : Bool := a.1 < b.1 || (a.1 == b.1 && a.2.seq < b.2.seq)
 
 def insertSorted (x : Nat × SMsg) : List (Nat × SMsg) → List (Nat × SMsg)
   | [] => [x]
@@ -118,6 +119,15 @@ def SSt.step (table : List (Nat × Nat)) (windowSecs minDelay : Nat) (s : SSt) (
 
 def SSt.finish (s : SSt) : SSt := { s with out := (s.heap.map (·.2)).reverse ++ s.out, heap := [] }
 
+/-- the arrival numbers `buffer_sort_messages` hands out: 0, 1, 2, … -/
+def number (k : Nat) : List SMsg → List SMsg
+  | [] => []
+  | m :: t => { m with seq := k } :: number (k + 1) t
+
 def runSort (table : List (Nat × Nat)) (windowSecs minDelay : Nat) (ms : List SMsg) : List SMsg :=
   ((ms.foldl (SSt.step table windowSecs minDelay) { T := minDelay }).finish).out.reverse
+
+/-- `buffer_sort_messages`: number the messages as they arrive, sort -/
+def runSortSeq (table : List (Nat × Nat)) (windowSecs minDelay : Nat) (ms : List SMsg) : List SMsg :=
+  runSort table windowSecs minDelay (number 0 ms)
 end Srt
